@@ -46,12 +46,15 @@ def showSeq (seq : List (List (List Nat))) : String :=
 def perDisc (ds : List Disc) (f : Nat → List String) : String :=
   if ds.isEmpty then "[]" else "/".intercalate ((List.range ds.length).map (fun i => showNames (f i)))
 
+def showEdges (es : List (Nat × Nat × List String)) : String :=
+  if es.isEmpty then "[]" else ";".intercalate (es.map (fun e => s!"{e.1}>{e.2.1}:{",".intercalate e.2.2}"))
+
 def graphAnswer (ds : List Disc) : String :=
   let n := ds.length
   let seq := sequence ds
   let strong := strongCouplings ds seq
   let all := allCouplings ds
-  s!"seq={showSeq seq} strong={showNames strong} weak={showNames (weakCouplings ds seq)} all={showNames all} scd={showIdx (sortNat (stronglyCoupled ds seq true))} wcd={showIdx (sortNat (weaklyCoupled ds seq))} scd0={showIdx (sortNat (stronglyCoupled ds seq false))} grp={showGroups (stronglyCoupledGroups ds seq true)} self={showIdx ((List.range n).filter (selfCoupledAt ds))} ic={perDisc ds (fun i => inputCouplings ds i strong)} oc={perDisc ds (fun i => outputCouplings ds i strong)} ica={perDisc ds (fun i => inputCouplings ds i all)} oca={perDisc ds (fun i => outputCouplings ds i all)}"
+  s!"seq={showSeq seq} strong={showNames strong} weak={showNames (weakCouplings ds seq)} all={showNames all} scd={showIdx (sortNat (stronglyCoupled ds seq true))} wcd={showIdx (sortNat (weaklyCoupled ds seq))} scd0={showIdx (sortNat (stronglyCoupled ds seq false))} grp={showGroups (stronglyCoupledGroups ds seq true)} self={showIdx ((List.range n).filter (selfCoupledAt ds))} ic={perDisc ds (fun i => inputCouplings ds i strong)} oc={perDisc ds (fun i => outputCouplings ds i strong)} ica={perDisc ds (fun i => inputCouplings ds i all)} oca={perDisc ds (fun i => outputCouplings ds i all)} edges={showEdges (disciplinesCouplings ds)}"
 
 def parseKV (t : String) : Option (String × Rat) :=
   match t.splitOn "=" with
